@@ -7,7 +7,10 @@ comparisons of an area (X times Y) with the configured limit whose true edge rai
 before any work (C16.c); out-of-grid (None) coordinates are inert in the manager, in every
 backend and in the creators (C16.d).
 Added in round 4: the REST dimension pre-check looks at every dimension slot before the tile is
-rendered (C16.i)."""
+rendered (C16.i).
+Added in round 5: sizes that are not positive are refused (C16.j); the tile limit is given to every
+CacheMapLayer (C16.k); WMTS addresses are validated by the layer of the requested matrix set
+(C16.l)."""
 import ast
 
 from ..engine import rule
